@@ -20,6 +20,7 @@ import re
 from .common import *
 from ..callgraph import CallGraph
 from ..writers import field_writers
+from ..tables import decided
 
 LEVEL = 'other'
 TS = 'trippy_core::strategy::state::TracerState'
@@ -114,7 +115,8 @@ def run(chk, tier):
                  '(sequence − round_sequence < %d)' % (val, BS, BS), key='R3|round_has_capacity')
     # buffer index terms
     IDX = r'Sub\(self\.sequence, self\.round_sequence\)'
-    engp = Engine(prog, inline_depth=1, opaque=[r'TracerState::probe_data$', r'Probe::new$'])
+    # depth 2: the index may be computed by a helper of TracerState (which itself converts the Sequence difference)
+    engp = Engine(prog, inline_depth=2, opaque=[r'TracerState::probe_data$', r'Probe::new$', r'Probe::clone$'])
     for name, want_idx in (('next_probe', [IDX]), ('reissue_probe', [r'Sub\(%s, 1\)' % IDX, IDX])):
         fn = prog.find(r'TracerState::%s$' % name)
         st = St()
@@ -136,7 +138,7 @@ def run(chk, tier):
         outs = eng.run(fn, args, st)
         vals = [vshow(e[7][1]) for o in outs for e in o.st.events if e[0] == 'call' and re.search(r'::index$', e[1])] + \
                [vshow(e[2][1]) for o in outs for e in o.st.events if e[0] == 'assert' and e[1] == 'BoundsCheck']
-        want = r'(Sequence\()?Sub\(seq, self\.round_sequence\)\)?' if name == 'probe_at' else r'RangeTo\(Sub\(self\.sequence, self\.round_sequence\)\)'
+        want = r'(Sequence\()?Sub\(seq, self\.round_sequence\)\)?' if name == 'probe_at' else r'(?:RangeTo\(|Range\(0, )Sub\(self\.sequence, self\.round_sequence\)\)'
         if vals and all(re.fullmatch(want, v) for v in vals):
             chk.ok('R3', name + ':index', vals[0])
         else:
@@ -191,8 +193,9 @@ def run(chk, tier):
         fam = dict(dec).get('discr(self.config.target_addr)')
         dublin6 = (strat == 2 and fam == 1)
         regimes.add(dublin6)
-        thr = r'Add\(self\.config\.initial_sequence, %d\)' % BS if dublin6 else str(MAXSEQ)
-        ge = [v for a, v in dec if re.fullmatch(r'Ge\(self\.sequence, %s\)' % thr, a)]
+        thr = 'Add(self.config.initial_sequence, %d)' % BS if dublin6 else str(MAXSEQ)
+        ge_ = decided(o.st.decisions, 'Ge(self.sequence, %s)' % thr)      # whichever spelling: s >= m, m <= s, !(s < m), !(m > s)
+        ge = [] if ge_ is None else [ge_]
         if o.kind != 'return' or len(ge) != 1:
             chk.fail('R5', 'advance_round:trace%d' % i, fn_loc(fa), 'advance_round does not compare sequence with max_sequence() = %s in the %s regime (decisions %s)' % (
                 thr, 'Dublin/IPv6' if dublin6 else 'general', dec), key='R5|advance_round|threshold|' + ('dublin6' if dublin6 else 'general'))
